@@ -1,1 +1,13 @@
-// placeholder
+// Kani harnesses for geo (included from geo/src/lib.rs under cfg(kani)).
+use crate::*;
+use crate::coordinate_position::{coord_pos_relative_to_ring, CoordPos, CoordinatePosition};
+use crate::kernels::{Kernel, Orientation, RobustKernel, SimpleKernel};
+use geo_types::{Coord, CoordNum, Geometry, GeometryCollection, Line, LineString, MultiLineString, MultiPoint, MultiPolygon, Point, Polygon, Rect, Triangle};
+use std::vec::Vec;
+
+include!(concat!(env!("GEO_VERIF_DIR"), "/contracts/kani/common.rs"));
+include!(concat!(env!("GEO_VERIF_DIR"), "/contracts/kani/spec.rs"));
+include!(concat!(env!("GEO_VERIF_DIR"), "/contracts/kani/geo/c02.rs"));
+
+#[cfg(kani)]
+include!(concat!(env!("GEO_VERIF_DIR"), "/.work/playback/geo.rs"));
